@@ -28,6 +28,22 @@ def _token_set(fx: ast.AST, e: ast.AST, pairs: list[str], depth: int = 0) -> set
 		return None if d is e else _token_set(fx, d, pairs, depth + 1)
 	if isinstance(e, ast.Constant) and isinstance(e.value, str):
 		return set(e.value)
+	if isinstance(e, (ast.Tuple, ast.List, ast.Set)) and e.elts and all(isinstance(x, ast.Constant) and isinstance(x.value, str) for x in e.elts):
+		return set(''.join(x.value for x in e.elts))
+	if isinstance(e, ast.Subscript) and isinstance(e.slice, ast.Slice) and depth < 4:
+		# `''.join(cls._all_pair)[0::2]`: every second character of the joined two-character pairs = the openers ([1::2]: the closers)
+		base = e.value
+		while isinstance(base, ast.Name):
+			d = deref(fx, base)
+			if d is base:
+				break
+			base = d
+		whole = isinstance(base, ast.Call) and isinstance(base.func, ast.Attribute) and base.func.attr == 'join' and base.args and isinstance(base.args[0], ast.Attribute) and base.args[0].attr == '_all_pair'
+		lo, up, st = e.slice.lower, e.slice.upper, e.slice.step
+		if whole and up is None and isinstance(st, ast.Constant) and st.value == 2 and (lo is None or (isinstance(lo, ast.Constant) and lo.value in (0, 1))):
+			k = lo.value if lo is not None else 0
+			return {p_[k] for p_ in pairs}
+		return None
 	if isinstance(e, ast.JoinedStr):
 		return None
 	if isinstance(e, ast.Call) and isinstance(e.func, ast.Attribute) and e.func.attr == 'join' and e.args:
@@ -74,15 +90,20 @@ def run(rep: Report, tier: str) -> None:
 			r2.skip('_skip_other_block:stack', sk.where, 'no closer stack (append / pop) found')
 		for c_ in ops:
 			known = atoms(sx, c_)
-			def mentions_quotes(e: ast.AST, depth: int = 0) -> bool:
+			def quote_chars(e: ast.AST, depth: int = 0) -> set[str]:
+				"""quote characters among the string constants of one condition (`x in '"\''`, `x in ('"', "'")`), through locals"""
+				out: set[str] = set()
 				for x in ast.walk(e):
-					if isinstance(x, ast.Constant) and isinstance(x.value, str) and QUOTES <= set(x.value):
-						return True
+					if isinstance(x, ast.Constant) and isinstance(x.value, str):
+						out |= QUOTES & set(x.value)
 					if isinstance(x, ast.Name) and isinstance(x.ctx, ast.Load) and depth < 3:
 						d_ = deref(sx, x)
-						if d_ is not x and mentions_quotes(d_, depth + 1):
-							return True
-				return False
+						if d_ is not x:
+							out |= quote_chars(d_, depth + 1)
+				return out
+
+			def mentions_quotes(e: ast.AST) -> bool:
+				return QUOTES <= quote_chars(e)
 			quote_aware = any(mentions_quotes(a) for a, _ in known)
 			r2.check(quote_aware, f'_skip_other_block:{c_.func.attr}', (BLOCK, c_.lineno), f'`{unparse(c_)[:50]}` runs under {[(unparse(a)[:50], p_) for a, p_ in known]}: nothing distinguishes "inside a quote", so a bracket between quotes is pushed on the closer stack and the skip runs to the end of the text (`"(", x` is never split at the comma)', unparse(c_)[:80])
 
@@ -140,6 +161,7 @@ def run(rep: Report, tier: str) -> None:
 	rule_angle(rep, bp, pairs)
 	rule_callers(rep, idx)
 	rule_nesting(rep, bp)
+	rule_no_raw_bracket_search(rep, bp)
 
 
 def rule_angle(rep: Report, bp, pairs) -> None:
@@ -319,9 +341,13 @@ def rule_callers(rep: Report, idx: SourceIndex) -> None:
 			return [x]
 		alts = arms(d)
 		for e in alts:
-			txt = unparse(e)
 			if isinstance(e, ast.Constant) and e.value == '':
 				continue
+			from vlib.match import expand_use
+			where_e = e
+			e = expand_use(gs, e) if any(x is e for x in ast.walk(gs)) else e  # locals such as `separator_at = parameter.index('=', ...)` stand for their values
+			ast.copy_location(e, where_e)
+			txt = unparse(e)
 			one_piece = isinstance(e, ast.Subscript) and isinstance(e.slice, ast.Constant) and e.slice.value == 1 and (unparse(e.value) in pieces or unparse(e.value) in {unparse(s_) for s_ in splits})
 			rest_join = isinstance(e, ast.Call) and isinstance(e.func, ast.Attribute) and e.func.attr == 'join' and const_str(e.func.value) == '=' and e.args and ('[1:]' in unparse(e.args[0]))
 			tail = any(isinstance(x, ast.Subscript) and unparse(x.value) == par and isinstance(x.slice, ast.Slice) and x.slice.upper is None and x.slice.lower is not None and any(isinstance(y, ast.Call) and isinstance(y.func, ast.Attribute) and y.func.attr in ('index', 'find') and y.args and const_str(y.args[0]) == '=' for y in ast.walk(x.slice.lower)) for x in ast.walk(e))
@@ -393,3 +419,28 @@ def rule_nesting(rep: Report, bp) -> None:
 		recursive = any(isinstance(c_.func, ast.Attribute) and c_.func.attr == 'unders' for c_ in nodes(un.node, ast.Call))
 		worklist = any(isinstance(lp, ast.While) for lp in nodes(un.node, ast.While))
 		r.check(recursive or worklist, 'unders-all-levels', un.where, 'Entry.unders yields the entries and their direct children only (no recursion, no work-list): blocks nested deeper than two levels are missing from parse_bracket and parse_pair', unparse(un.node)[-120:])
+
+
+def rule_no_raw_bracket_search(rep: Report, bp) -> None:
+	"""The consumers of the entry tree cut pieces out of the text by positions. The position of a block's OPENING bracket is known to the scanner only:
+	the name in front of it may contain foreign groups and strings in which the requested bracket occurs (`std::function<void(int)>(a)`, `f["("](a)`).
+	A `text.find(brackets[0], entry.begin)` takes the first such occurrence: the piece starts inside the name and is unbalanced
+	(`CSP.new([cb] * n)` with a function-typed element was rendered `new std::vector<void(*)(int)>(*)(int)>(n, cb)`)."""
+	r = rep.rule('C18/no-raw-bracket-search', 'no method of BlockParser locates a requested bracket with str.find / index / rfind over the scanned text (the scanner that skips foreign groups and strings is the only source of bracket positions)', floor=1)
+	n_raw = 0
+	for name, defs_ in bp.methods.items():
+		for f in defs_:
+			params = f.params()
+			br = next((p_ for p_ in params if p_ == 'brackets'), None)
+			if br is None:
+				continue
+			fx = X(f)
+			for c_ in nodes(fx, ast.Call):
+				if not (isinstance(c_.func, ast.Attribute) and c_.func.attr in ('find', 'index', 'rfind', 'rindex') and c_.args):
+					continue
+				a0 = unparse(c_.args[0])
+				if a0 in (f'{br}[0]', f'{br}[1]'):
+					n_raw += 1
+					r.violate(f'{f.qualname}:{unparse(c_)[:40]}', (BLOCK, c_.lineno), f'{f.qualname} searches the text for the requested bracket with `{unparse(c_)[:70]}`: the first occurrence may lie inside a foreign group or a string of the block name (`std::vector<std::function<void(int)>>(size, x)`, `f["("](a)`), the piece then starts there and is unbalanced', unparse(c_))
+	if n_raw == 0:
+		r.ok('no-raw-search', bp.where, message='no str.find / index of a requested bracket in BlockParser')
